@@ -318,9 +318,12 @@ structure X509 where
   validNow : String → Bool                          -- inside its validity period
   matchesName : Name → String → Bool                -- VerifyHostname
 
-/-- crypto/tls client: the server certificate is verified (chain, validity, ServerName) unless InsecureSkipVerify -/
+/-- crypto/tls client: the server certificate is verified (chain, validity, ServerName) unless InsecureSkipVerify;
+    without a ServerName there is nothing to verify against and crypto/tls refuses the handshake outright
+    ("tls: either ServerName or InsecureSkipVerify must be specified in the tls.Config") -/
 def clientAccepts (X : X509) (cfg : TlsCfg) (peer : String) : Bool :=
-  cfg.insecureSkipVerify || (X.chains cfg.rootCAs peer && X.validNow peer && X.matchesName cfg.serverName peer)
+  cfg.insecureSkipVerify ||
+    (!cfg.serverName.isEmpty && X.chains cfg.rootCAs peer && X.validNow peer && X.matchesName cfg.serverName peer)
 
 /-- crypto/tls server: NoClientCert asks for nothing; RequireAndVerifyClientCert demands a certificate chaining to ClientCAs -/
 def serverAdmits (X : X509) (cfg : TlsCfg) (presented : Option String) : Bool :=
@@ -504,18 +507,18 @@ structure CertAttrs where
   expired : Bool
 
 def certTable : List (String × CertAttrs) := [
-  ("good", ⟨"A", ["server.test", "localhost", "127.0.0.1"], false⟩),
+  ("good", ⟨"A", ["server.test", "localhost", "127.0.0.1", "::1"], false⟩),
   ("nameonly", ⟨"A", ["server.test", "localhost"], false⟩),
   ("iponly", ⟨"A", ["127.0.0.1"], false⟩),
   ("wronghost", ⟨"A", ["other.test", "10.9.9.9"], false⟩),
-  ("untrusted", ⟨"B", ["server.test", "localhost", "127.0.0.1"], false⟩),
-  ("expired", ⟨"A", ["server.test", "localhost", "127.0.0.1"], true⟩),
+  ("untrusted", ⟨"B", ["server.test", "localhost", "127.0.0.1", "::1"], false⟩),
+  ("expired", ⟨"A", ["server.test", "localhost", "127.0.0.1", "::1"], true⟩),
   -- validity boundary: signed by the harness at the moment of use (go/harness/c05_pki.go);
   -- `expired` = outside the validity period at that moment
-  ("exp1m", ⟨"A", ["server.test", "localhost", "127.0.0.1"], true⟩),      -- NotAfter = now - 60 s
-  ("exp1s", ⟨"A", ["server.test", "localhost", "127.0.0.1"], true⟩),      -- NotAfter = now - 1 s
-  ("notyet", ⟨"A", ["server.test", "localhost", "127.0.0.1"], true⟩),     -- NotBefore = now + 120 s
-  ("fresh", ⟨"A", ["server.test", "localhost", "127.0.0.1"], false⟩),     -- now - 60 s … now + 120 s
+  ("exp1m", ⟨"A", ["server.test", "localhost", "127.0.0.1", "::1"], true⟩),      -- NotAfter = now - 60 s
+  ("exp1s", ⟨"A", ["server.test", "localhost", "127.0.0.1", "::1"], true⟩),      -- NotAfter = now - 1 s
+  ("notyet", ⟨"A", ["server.test", "localhost", "127.0.0.1", "::1"], true⟩),     -- NotBefore = now + 120 s
+  ("fresh", ⟨"A", ["server.test", "localhost", "127.0.0.1", "::1"], false⟩),     -- now - 60 s … now + 120 s
   ("cgood", ⟨"A", [], false⟩),
   ("cforeign", ⟨"B", [], false⟩),
   ("cexpired", ⟨"A", [], true⟩), ("cexp1m", ⟨"A", [], true⟩), ("cexp1s", ⟨"A", [], true⟩),
@@ -540,19 +543,81 @@ def serverCertClasses : List String :=
 def clientCertClasses : List String :=
   ["none", "good", "foreign", "expired", "exp1m", "exp1s", "notyet", "fresh"]
 
+/-! ### reference oracle for x509.VerifyHostname on the names the harness uses
+
+    `[ip]` is read as the IP; an IP literal is compared as an address with the certificate's IP entries only
+    (`::ffff:127.0.0.1` equals `127.0.0.1`); anything else is a DNS name: valid host-name characters only,
+    compared case-insensitively, one trailing dot ignored, with the DNS entries only.  A zone (`%`), an
+    unbracketed `host:port` left-over, an empty string: not a name, matches nothing. -/
+
+def lowerChar (c : Char) : Char := if 'A' ≤ c && c ≤ 'Z' then Char.ofNat (c.toNat + 32) else c
+
+def splitDots : Name → List Name
+  | [] => [[]]
+  | c :: cs =>
+    match splitDots cs with
+    | [] => [[c]]
+    | x :: xs => if c = '.' then [] :: x :: xs else (c :: x) :: xs
+
+/-- dotted quad, every part 1-3 digits (no leading zero beyond "0"), at most 255 -/
+def isIPv4 (n : Name) : Bool :=
+  let parts := splitDots n
+  parts.length == 4 && parts.all (fun q =>
+    !q.isEmpty && q.length ≤ 3 && q.all isDigit && (q.length == 1 || q.head? != some '0') &&
+      (q.foldl (fun a c => a * 10 + (c.toNat - 48)) 0) ≤ 255)
+
+/-- the IPv6 literals the harness writes, with the address they denote -/
+def refIPv6 : List (String × String) :=
+  [("::1", "::1"), ("0:0:0:0:0:0:0:1", "::1"), ("::ffff:127.0.0.1", "127.0.0.1"), ("::", "::")]
+
+/-- `some (true, a)`: IP address a; `some (false, d)`: DNS name d (lower case, no trailing dot); `none`: not a name -/
+def canonName (n : Name) : Option (Bool × String) :=
+  let inner := if n.head? = some '[' ∧ n.getLast? = some ']' ∧ n.length ≥ 3 then (n.drop 1).dropLast else n
+  let str := String.ofList (inner.map lowerChar)
+  match refIPv6.lookup str with
+  | some a => some (true, a)
+  | none =>
+    if isIPv4 inner then some (true, String.ofList inner)
+    else if inner != n then none                                  -- brackets around something that is no IP
+    else
+      let d := if n.getLast? = some '.' then n.dropLast else n
+      if d.isEmpty || !(d.all (fun c => c.isAlphanum || c = '-' || c = '.' || c = '_')) || d.head? = some '.' ||
+          isIPv4 d then none
+      else some (false, String.ofList (d.map lowerChar))
+
+def nameIsIP (s : String) : Bool := isIPv4 s.toList || s.toList.contains ':'
+
 def refX509 : X509 where
   chains pool c :=
     match pool, certTable.lookup c with
     | some ids, some a => ids.contains a.signer
     | _, _ => false                                   -- the system roots know none of the harness CAs
   validNow c := match certTable.lookup c with | some a => !a.expired | none => false
-  matchesName n c := match certTable.lookup c with | some a => a.names.contains (String.ofList n) | none => false
+  matchesName n c :=
+    match certTable.lookup c, canonName n with
+    | some a, some (ip, v) => a.names.any (fun e => e == v && nameIsIP e == ip)
+    | _, _ => false
 
 /-- name resolution of the hosts the harness can reach -/
 def refResolve (hostport : Name) : Name :=
   match splitLastColon hostport with
-  | some (h, p) => if h = "localhost".toList then "127.0.0.1".toList ++ ':' :: p else hostport
+  | some (h, p) => if h.map lowerChar = "localhost".toList then "127.0.0.1".toList ++ ':' :: p else hostport
   | none => hostport
+
+/-- the host token of an `authmatrix` / `tlshist` op: a literal host name, or `=<hex>` = the host part exactly as
+    the user writes it in the upstream URL (may be empty, bracketed, carry userinfo or a zone) -/
+def decodeHostTok (t : String) : Option (Name × Bool) :=
+  if t.startsWith "=" then
+    match (fromHex (String.ofList (t.toList.drop 1))).bind (fun bs => (String.fromUTF8? ⟨bs.toArray.map (·.toUInt8)⟩).map (·.toList)) with
+    | some n => some (n, true)
+    | none => none
+  else some (t.toList, false)
+
+/-- net/url: the authority's userinfo ends at the last '@' -/
+def stripUserinfo (n : Name) : Name :=
+  match (n.reverse.span (· != '@')) with
+  | (afterRev, _ :: _) => afterRev.reverse
+  | (_, []) => n
 
 /-! ## line protocol -/
 
@@ -675,6 +740,15 @@ def handleTlscfg (toks : List String) : String :=
     (match (fromHex h).bind bytesToName with
      | some n => "name " ++ nameHex (startTlsName SA.Gen.startTlsStripsPort n)
      | none => "bad-op")
+  | ["startcfg", h] =>
+    -- a VERIFYING client config (CA A, InsecureSkipVerify off) through the real startTls against the `good` server:
+    -- the name written into the config, the InsecureSkipVerify it carries afterwards, and the outcome
+    (match (fromHex h).bind bytesToName with
+     | some n =>
+       let name := startTlsName SA.Gen.startTlsStripsPort n
+       let cfg : TlsCfg := { rootCAs := some ["A"], serverName := name }
+       "name " ++ nameHex name ++ " isv=0 " ++ (if clientAccepts refX509 cfg "good" then "est" else "ref")
+     | none => "bad-op")
   | ["udp", side, pw] =>
     let keyLen := if side = "client" then some SA.Gen.pbkdf2KeyLenClient else if side = "server" then some SA.Gen.pbkdf2KeyLenServer else none
     let pw : Option (Option (List Nat)) :=
@@ -712,13 +786,15 @@ def handleAuthmatrix (toks : List String) : String :=
       if !(clientCertClasses.contains ccert) then none
       if !(["A", "-"].contains cca) || !(["A", "-"].contains sca) then none
       if noHost != (hostname == "-") then none
-      if (carrier == "tcp" || carrier == "tcp+tls" || carrier == "udp" || carrier == "ws" || carrier == "wss") && !(hostname == "localhost" || hostname == "127.0.0.1") then none
-      if carrier == "pipe" && hostname.toList.any (fun c => c == ':' || c == '/' || c == '[' || c == ']') then none
+      let (hostPart, special) ← decodeHostTok hostname
+      if special && noHost then none
+      if !special && (carrier == "tcp" || carrier == "tcp+tls" || carrier == "udp" || carrier == "ws" || carrier == "wss") && !(hostname == "localhost" || hostname == "127.0.0.1") then none
+      if !special && carrier == "pipe" && hostname.toList.any (fun c => c == ':' || c == '/' || c == '[' || c == ']') then none
       let caSrc (t : String) : Src := if t = "A" then ⟨none, some (.cas ["A"])⟩ else {}
       let so : Opts := leafSrc scert { ca := caSrc sca, flag := sreq }
       let co0 : Opts := { ca := caSrc cca, flag := ins }
       let co : Opts := if ccert = "none" then co0 else leafSrc ("c" ++ ccert) co0
-      let hostport : Name := if noHost then [] else hostname.toList ++ ":4443".toList
+      let hostport : Name := if noHost then [] else stripUserinfo hostPart ++ ":4443".toList
       pure (if established refX509 genFacts k hostport (refResolve hostport) co so then "established" else "refused")
     r.getD "bad-op"
   | _ => "bad-op"
@@ -734,12 +810,14 @@ def parseAttempt (sreq : Bool) (sca : String) (tok : String) : Option Attempt :=
     let (k, noHost) ← parseKind carrier
     if !(("dead" :: "iponly" :: serverCertClasses).contains scert) then none
     if noHost != (hostname == "-") then none
-    if (carrier == "tcp" || carrier == "tcp+tls" || carrier == "wss") && !(hostname == "localhost" || hostname == "127.0.0.1") then none
-    if carrier == "pipe" && (hostname.isEmpty || hostname.toList.any (fun c => c == ':' || c == '/' || c == '[' || c == ']')) then none
+    let (hostPart, special) ← decodeHostTok hostname
+    if special && noHost then none
+    if !special && (carrier == "tcp" || carrier == "tcp+tls" || carrier == "wss") && !(hostname == "localhost" || hostname == "127.0.0.1") then none
+    if !special && carrier == "pipe" && (hostname.isEmpty || hostname.toList.any (fun c => c == ':' || c == '/' || c == '[' || c == ']')) then none
     let caSrc : Src := if sca = "A" then ⟨none, some (.cas ["A"])⟩ else {}
     let up := scert != "dead"
     let so : Opts := leafSrc (if up then scert else "good") { ca := caSrc, flag := sreq }
-    let hostport : Name := if noHost then [] else hostname.toList ++ ":4443".toList
+    let hostport : Name := if noHost then [] else stripUserinfo hostPart ++ ":4443".toList
     pure { kind := k, hostport := hostport, resolved := refResolve hostport, up := up, so := so }
   | _ => none
 
